@@ -414,8 +414,9 @@ def agg_programs(rng, n):
     return out
 
 
-def join_programs(rng, n):
-    """C08: every ship x local x variant, duplicate keys, one-sided keys, an empty side."""
+def join_programs(rng, n, keyed_mixed=False):
+    """C08: every ship x local x variant, duplicate keys, one-sided keys, an empty side.
+    keyed_mixed: only keyed-stream joins whose sides were partitioned by DIFFERENT API calls."""
     out = []
     combos = [(s, l, v) for s in ("hash", "bcast") for l in ("hash", "sortmerge")
               for v in (("inner", "left", "outer") if s == "hash" else ("inner", "left"))]
@@ -429,13 +430,15 @@ def join_programs(rng, n):
             nodes.append({"id": "lm", "op": rng.choice(["map", "shuffle"]), "f": rng.choice(MAPS), "in": ["l"]}); a = "lm"
         if rng.random() < 0.4:
             nodes.append({"id": "rm", "op": rng.choice(["map", "shuffle"]), "f": rng.choice(MAPS), "in": ["r"]}); b = "rm"
-        if i % 7 in (5, 6):
+        if keyed_mixed or i % 7 in (5, 6):
             # keyed-stream join: both sides must be partitioned alike, whichever API call partitioned them
             # (group_by, or one of the two-phase group_by_* aggregations)
             mk = rng.choice([2, 3, 5, 11, 17])
             def keyed(side, src):
                 kind = rng.choice(["group_by", "gb_count", "gb_fold", "gb_reduce", "gb_sum", "gb_max"]) if i % 7 == 5 \
                     else "group_by"
+                if keyed_mixed:
+                    kind = rng.choice(["gb_count", "gb_fold", "gb_reduce", "gb_sum", "gb_max"])
                 n = {"id": side, "op": kind, "m": mk, "in": [src]}
                 if kind == "gb_fold":
                     n["agg"] = rng.choice(AGGS)
@@ -443,8 +446,8 @@ def join_programs(rng, n):
                     n["agg"] = rng.choice(["sum", "max", "min"])
                 return n
             nodes += [keyed("gl", a), {"id": "gr", "op": "group_by", "m": mk, "in": [b]},
-                      {"id": "j", "op": rng.choice(["kjoin", "kjoin", "kmerge"]), "variant": rng.choice(["inner", "outer"]),
-                       "in": ["gl", "gr"]}]
+                      {"id": "j", "op": "kjoin" if keyed_mixed else rng.choice(["kjoin", "kjoin", "kmerge"]),
+                       "variant": rng.choice(["inner", "outer"]), "in": ["gl", "gr"]}]
         else:
             nodes.append({"id": "j", "op": "join", "ship": ship, "local": local, "variant": variant,
                           "ml": rng.choice([1, 2, 3, 5, 7]), "mr": rng.choice([1, 2, 3, 5, 7]), "in": [a, b]})
